@@ -16,6 +16,8 @@ CONSTANTS
  MaxMergeInputs = 2
  AsyncRelease = FALSE
   WithMergeFail = FALSE
+ BuilderBase = FALSE
+ CopySchedById = FALSE
  MaxOpens = 1
 CONSTRAINT Bound
 INVARIANTS ReaderFilesOnDisk
